@@ -160,6 +160,14 @@ pub struct Ctx {
 }
 
 /// Set once a VIOLATION line was printed (the watchdog then reports the verdict instead of `inconclusive`).
+/// what the process is doing right now (for the resource watchdogs' messages)
+pub static PHASE: std::sync::Mutex<String> = std::sync::Mutex::new(String::new());
+pub fn set_phase(p: String) {
+    if let Ok(mut g) = PHASE.lock() {
+        *g = p;
+    }
+}
+
 pub static VIOLATION_SEEN: std::sync::atomic::AtomicBool = std::sync::atomic::AtomicBool::new(false);
 
 /// Set by the fuzz targets: oracles then run their panic-provoking probes less often.
@@ -444,6 +452,7 @@ impl Ctx {
     /// Bounded-exhaustive enumeration. Stops this enumeration at the first failure that is not a known finding.
     pub fn exhaustive<K: Check>(&mut self, k: &K, bound: &str, cases: impl Iterator<Item = K::Case>) {
         let name = k.name();
+        set_phase(format!("{name}: exhaustive enumeration ({bound})"));
         let mut sub = SubStats { name: name.clone(), engine: "exhaustive".into(), exhaustive: true, bound: bound.into(), ..Default::default() };
         let mut seen = HashSet::new();
         let mut ns = 0u32;
@@ -468,6 +477,7 @@ impl Ctx {
     /// Random generation with proptest (integrated shrinking). Stops at the first failure that is not known.
     pub fn random<K: Check, S: Strategy<Value = K::Case>>(&mut self, k: &K, strategy: S, cases: u32) {
         let name = k.name();
+        set_phase(format!("{name}: {cases} proptest cases"));
         let mut sub = SubStats { name: name.clone(), engine: "proptest".into(), bound: format!("{cases} cases"), ..Default::default() };
         let config = Config {
             cases,
@@ -560,6 +570,7 @@ impl Ctx {
                 eprintln!("warning: replay file {fname} does not decode as a case of {name}");
                 continue;
             };
+            set_phase(format!("{name}: regression replay {fname}"));
             let o = Self::eval(k, &case);
             Self::account(k, &mut sub, &mut seen, &mut samples, &case, &o, &mut ns);
             if let Err(f) = &o.result {
@@ -583,6 +594,7 @@ impl Ctx {
             return false;
         }
         let Ok(case) = serde_json::from_value::<K::Case>(v["case"].clone()) else { return false };
+        set_phase(format!("{}: replay of {}", k.name(), path.display()));
         let o = Self::eval(k, &case);
         let mut sub = SubStats { name: format!("{} (replay)", k.name()), engine: "replay".into(), ..Default::default() };
         let mut seen = HashSet::new();
